@@ -321,7 +321,7 @@ def step (d : DState) (line : String) : DState × List String :=
     | _ => (d, ["bad-op"])
   | ["hypot", x, y] => (d, ["ok " ++ hexf (MathOps.hypot (unhexf x) (unhexf y))])
   | ["planarc", ex, ey, i, j, cw] =>
-    match planArc d.st.position (unhexf ex) (unhexf ey) (unhexf i) (unhexf j) (bflag cw) with
+    match planArc d.st.position (unhexf ex) (unhexf ey) (unhexf i) (unhexf j) (-(unhexf i)) (-(unhexf j)) (bflag cw) with
     | .ok pts => (d, ["ok " ++ ",".intercalate (pts.map (fun (a, b) => hexf a ++ ":" ++ hexf b))])
     | .error e => (d, ["err " ++ e.name])
   | ["arccenter", ex, ey, r, cw] =>
